@@ -121,7 +121,9 @@ pub fn exec(rec: &Value, _st: &mut State) -> Value {
                     let v = 2.0 * dv.value() / s;
                     // ToPlane: the value is a projection, but the reference point is still the closest point of the mesh
                     let dp = mesh.measure_point_deviation(&p, engeom::common::DistMode::ToPlane);
-                    json!({"dq2": q.q(v * v, 64.0), "a": d2q(&mut q, &dv.a), "apl": d2q(&mut q, &dp.a)})
+                    let mut qd = Q::new();
+                    json!({"dq2": q.q(v * v, 64.0), "a": d2q(&mut q, &dv.a), "apl": d2q(&mut q, &dp.a),
+                           "npl": [qd.q(dp.direction.x, QD), qd.q(dp.direction.y, QD), qd.q(dp.direction.z, QD)], "nplfin": qd.finite})
                 };
                 let mut qn = Q::new();
                 outs.push(json!({
